@@ -119,3 +119,39 @@ Qed.
 Theorem unlocked_one_part_refuted :
   exists tr w, wrun false (w0 2) tr = Some w /\ scan (wire w) None = None.
 Proof. exists [WLock 0; WHdr 0; WOne 1; WPay 0; WUnlock 0]. eexists. split; vm_compute; reflexivity. Qed.
+
+(* ---- the writer is closed between packets, never inside one ---- *)
+Lemma crun_closed_stuck : forall lc w tr s, crun lc (w, true) tr = Some s -> tr = [] /\ s = (w, true).
+Proof.
+  intros lc w tr s H. destruct tr as [|l tr]; cbn [crun] in H; [inversion H; split; reflexivity|].
+  cbn [cstep] in H. discriminate H.
+Qed.
+
+Lemma crun_close_inv : forall tr w0' w, winv w0' -> crun true (w0', false) tr = Some (w, true) -> winv w /\ holder w = None.
+Proof.
+  induction tr as [|l tr IH]; intros w0' w Hi H; cbn [crun] in H; [inversion H|].
+  cbn [cstep] in H. destruct l as [l|].
+  - destruct (wstep true w0' l) as [w1|] eqn:E; [|discriminate H].
+    eapply IH; [eapply winv_step; eassumption | exact H].
+  - destruct (holder w0') as [h|] eqn:Eh; [discriminate H|].
+    apply crun_closed_stuck in H. destruct H as [_ H]. inversion H; subst. split; [exact Hi | exact Eh].
+Qed.
+
+(* for every number of senders and every interleaving of their steps with the close: when the writer is closed, what has been
+   written consists of whole packets - a request whose header is on the wire has its payload there too *)
+Theorem close_finds_whole_packets : forall n tr w, crun true (w0 n, false) tr = Some (w, true) ->
+  scan (wire w) None = Some None.
+Proof.
+  intros n tr w H. destruct (crun_close_inv tr (w0 n) w (winv_init n) H) as [[_ [_ Hs]] Hh].
+  rewrite Hs, Hh. reflexivity.
+Qed.
+
+(* the variant that closes the transport without the mutex can cut a two-part packet after its header *)
+Theorem unlocked_close_refuted :
+  exists tr w, crun false (w0 1, false) tr = Some (w, true) /\ scan (wire w) None = Some (Some 0).
+Proof. exists [CW (WLock 0); CW (WHdr 0); CClose]. eexists. split; vm_compute; reflexivity. Qed.
+
+Example close_nonvacuous :
+  exists w, crun true (w0 2, false) [CW (WLock 0); CW (WHdr 0); CW (WPay 0); CW (WUnlock 0); CW (WLock 1); CW (WOne 1); CW (WUnlock 1); CClose] = Some (w, true)
+            /\ wire w = [(0, PHdr); (0, PPay); (1, POne)].
+Proof. eexists. split; vm_compute; reflexivity. Qed.
